@@ -11,7 +11,8 @@ No logic here: parsing + calls of `readNL`, `delivered`, `solObjnoLine`, `objRow
   `F <name> <int>*` evaluates the definition `<name>` of the *generated* module `MpVerif.Gen.ObjFilter`
   (arguments in the order of the generated signature) and prints `ret n` / `throw` / `ub`.
 
-  `T <cnt> {<var> <coef>}*` prints `sortTerms` (model of `LinTerms::sort_terms`) of the term list as `v:c,v:c,..`. -/
+  `T <cnt> {<var> <coef>}*` prints `sortTerms` (model of `LinTerms::sort_terms`) of the term list as `v:c,v:c,..`;
+  `U …` the same through the *generated* `LinTerms_sort_terms` (force_sort = 0). -/
 open MpVerif.C12
 
 def parseOps : Nat → List String → Option (List OptOp × List String)
@@ -73,6 +74,12 @@ def runGen (name : String) (args : List String) : Option String := do
 def runLine (toks : List String) : Option String := do
   match toks with
   | "F" :: name :: args => runGen name args
+  | "U" :: cnt :: rest => do
+    let c ← cnt.toNat?
+    let (ts, r) ← parseTerms c rest
+    if !r.isEmpty then none
+    let (cs, vs) := MpVerif.Gen.ObjFilter.LinTerms_sort_terms 0 (ts.map (·.2)) (ts.map fun t => (t.1 : Int))
+    pure (",".intercalate ((vs.zip cs).map fun (v, c) => toString v ++ ":" ++ toString c))
   | "T" :: cnt :: rest => do
     let c ← cnt.toNat?
     let (ts, r) ← parseTerms c rest
